@@ -1405,7 +1405,7 @@ class Scheduler:
         if promise_expr:
             pending_promise, expr2 = promise_expr
 
-            def callback(result):
+            def copy_bookkeeping() -> None:
                 # Copy the evaluation bookkeeping from the completed expression `expr2`
                 # to our detected duplicate expression `expr`.
                 if isinstance(expr2, SchedulerExpression):
@@ -1418,9 +1418,18 @@ class Scheduler:
                     expr._upstreams = expr2._upstreams
                 else:
                     raise AssertionError(f"Unexpected expression: {expr2}")
+
+            def callback(result):
+                copy_bookkeeping()
                 return result
 
-            return pending_promise.then(callback)
+            def errback(error):
+                # A failed call also has a call node, which is the upstream of the error
+                # (e.g. when it is handed to the recover task of `catch`).
+                copy_bookkeeping()
+                raise error
+
+            return pending_promise.then(callback, errback)
 
         # Implementation note: we have to store this promise on the expression provided.
         # This happens at the end of the function, so do not return early!
